@@ -684,6 +684,10 @@ class ExcelCompiler:
                         # evaluating a dependant has already recalculated this
                         # cell, verify the result which the workbook stores
                         original_value = self.excel.get_range(cell.address).values
+                    if not self._values_changed and (
+                            self.excel.is_empty_text_result(cell.address)):
+                        # an empty text result is read as None
+                        original_value = ''
                     if original_value == str(cell.formula):
                         self.log.debug(f"No Orig data?: {addr}: {cell.value}")
                         continue
@@ -1365,6 +1369,9 @@ class _CompiledImporter:
             values = [[c.values for c in row] for row in cells]
 
             return ExcelOpxWrapper.RangeData(address, None, values)
+
+    def is_empty_text_result(self, address):
+        return False
 
     def _get_cell(self, address):
         cell_value = self.cell_map.get(str(address))
